@@ -44,8 +44,9 @@ def audit_sources():
     return bad
 
 
-def prove(prop, modules):
-    """returns (obligations, discharged, failures[list of str], axioms{thm: [..]}, log)"""
+def prove(prop, modules, recheck=False):
+    """returns (obligations, discharged, failures[list of str], axioms{thm: [..]}, log); with `recheck` the compiled
+    property modules are re-checked by `leanchecker` (the toolchain's independent checker of .olean files)"""
     from extract import generate
     gen_report = generate()
     ok, out = vlib.build_lean(modules + ["guard_model"])
@@ -90,6 +91,11 @@ def prove(prop, modules):
                 failures.append("theorem %s depends on %s" % (t, extra))
             else:
                 discharged += 1
+    if ok and recheck:
+        for m in modules:
+            rc, lout = vlib.run(["lake", "env", "leanchecker", m], cwd=LEAN)
+            if rc != 0:
+                failures.append("leanchecker rejects %s: %s" % (m, lout[-300:]))
     return len(thms), discharged, failures, axioms, out
 
 
@@ -131,7 +137,7 @@ def main():
     import shutil
     shutil.rmtree(os.path.join(VERIF, "replays", prop), ignore_errors=True)     # replays of earlier runs are stale
     # 1+2 prove
-    nobl, ndis, pf, axioms, plog = prove(prop, spec["modules"])
+    nobl, ndis, pf, axioms, plog = prove(prop, spec["modules"], recheck=(args.tier == "thorough"))
     # 3 build
     okh, hout = vlib.build_harness()
     if not okh:
